@@ -15,14 +15,16 @@ def main():
     if "--checks" in sys.argv:
         args = [a for a in args if a not in ("own", "all")]
     props = {json.loads(l)["id"]: json.loads(l) for l in open(os.path.join(VERIF, "properties.jsonl"))}
+    root = os.environ.get("SEED_ROOT", "/tmp/seeded")
+    suffix = os.environ.get("SEED_SUFFIX", "")
     for pid in args:
-        src = os.path.join("/tmp/seeded", pid)
+        src = os.path.join(root, pid)
         notes = open(os.path.join(src, "NOTES.md")).read() if os.path.exists(os.path.join(src, "NOTES.md")) else ""
         for n in (1, 2, 3):
             diff = os.path.join(src, f"change{n}.diff")
             if not os.path.exists(diff):
                 continue
-            dst = os.path.join(VERIF, "seeded", f"{pid}-{n}")
+            dst = os.path.join(VERIF, "seeded", f"{pid}{suffix}-{n}")
             os.makedirs(dst, exist_ok=True)
             shutil.copy(diff, os.path.join(dst, "patch.diff"))
             demo = os.path.join(src, f"demo{n}_test.go")
@@ -41,7 +43,7 @@ def main():
                 res = {"error": (p.stdout + p.stderr)[-2000:]}
             confirmed = bool(res.get("existing_suite_passes_with_change") and res.get("demo_fails_with_change") and res.get("demo_passes_without_change"))
             meta = {
-                "id": f"{pid}-{n}",
+                "id": f"{pid}{suffix}-{n}",
                 "breaks_property": pid,
                 "property_title": props[pid]["title"],
                 "source": "independent sub-agent given only the property text and a scratch worktree",
@@ -55,7 +57,7 @@ def main():
                 "needs_to_manifest": extract(notes, n),
             }
             json.dump(meta, open(os.path.join(dst, "meta.json"), "w"), indent=1)
-            print(f"{pid}-{n}: confirmed={confirmed} detected_by={meta['detected_by']} harness_errors={list(meta['harness_errors'])}", flush=True)
+            print(f"{pid}{suffix}-{n}: confirmed={confirmed} detected_by={meta['detected_by']} harness_errors={list(meta['harness_errors'])}", flush=True)
 
 
 def extract(notes, n):
